@@ -198,6 +198,22 @@ def r5_settemperature(idx, r):
     cn = idx.method(COMP, "changeNDensByFactor")
     r.require("dens * factor for nuc, dens in self.p.numberDensities.items()" in norm(cn.node) and any(dotted(c.func) == "self._changeOtherDensParamsByFactor" for c in iter_calls(cn.node)), "changeNDensByFactor", cn,
               msg="every nuclide (and the detailed/pin densities) must be scaled by the same factor")
+    for owner in (COMP, "armi.reactor.composites.ArmiObject"):
+        g = idx.method(owner, "changeNDensByFactor")
+        if g is None:
+            raise AnchorMissing(f"{owner}.changeNDensByFactor")
+
+        def evs(n):
+            if isinstance(n, ast.Assign) and any(norm(t) == "self.p.numberDensities" for t in n.targets):
+                return ["scaled"]
+            if isinstance(n, ast.Call) and dotted(n.func) == "self.setNumberDensities":
+                return ["scaled"]
+            return []
+        flg = Flow(g.node, evs).run()
+        bad = [e for e in flg.normal_exits() if e.state.get("scaled", (0, 0)) != (1, 1)]
+        r.require(not bad, f"{owner.rsplit('.', 1)[-1]}.changeNDensByFactor:always-scales", g, node=bad[0].node if bad and bad[0].node is not None else g.node,
+                  msg="a path leaves changeNDensByFactor without storing the scaled densities (e.g. an early return for factors 'close to one'): "
+                      "the dimensions change at every temperature step, so the densities must too, or mass drifts along a fine ramp")
     cl = idx.method(COMP, "clearLinkedCache")
     txt = norm(cl.node)
     r.require("self.clearCache()" in txt and "self.parent.cached = {}" in txt and "c.p.volume = None" in txt, "clearLinkedCache", cl, msg="own cache, the parent's cache and linked components' volumes must all be invalidated")
@@ -292,6 +308,80 @@ def r7_materials(idx, r):
         raise AnalysisError(f"only {n} linearExpansionPercent implementations found")
 
 
+def r8_none_tests(idx, r):
+    """0 degrees C (and 0 K) are temperatures. An optional temperature argument (default None) may only be
+    compared with None; evaluating it for truth (`Tc or default`, `if not Tc`) treats an explicit 0.0 as absent."""
+    from ..astutil import optional_params, truthiness_uses
+
+    TEMPS = {"Tc", "Tk", "T0"}
+    n = 0
+    for m in idx.modules.values():
+        if not m.name.startswith("armi.") or ".tests" in m.name:
+            continue
+        for f in m.all_funcs():
+            opt = optional_params(f.node) & TEMPS
+            if not opt:
+                continue
+            n += 1
+            uses = truthiness_uses(f.node, opt)
+            key = f"{m.relpath.rsplit('/', 1)[-1]}:{f.qualname}"
+            if uses:
+                u = uses[0]
+                r.violate(key, f, f"optional temperature `{u.id}` is evaluated for truth at line {u.lineno}: an explicit {u.id}=0.0 is treated as 'not given' "
+                          "and another temperature is used instead; compare with `is None`", node=u)
+            else:
+                r.ok(key, f)
+    if n < 100:
+        raise AnalysisError(f"only {n} functions with optional temperature arguments found")
+
+
+def r9_foreign_forwarding(idx, r):
+    """A default temperature is per component ("my own current temperature"). When an optional Tc is handed on to
+    ANOTHER object (a linked component, a child), it must still be the caller's argument - not a default already
+    resolved from this object - or the other object is evaluated at this object's temperature."""
+    from ..astutil import optional_params
+
+    n = 0
+    for m in idx.modules.values():
+        if not (m.name.startswith("armi.reactor.components") or m.name in ("armi.reactor.blocks", "armi.reactor.composites")):
+            continue
+        for f in m.all_funcs():
+            opt = optional_params(f.node) & {"Tc", "Tk"}
+            if not opt:
+                continue
+            sites = []
+            for c in iter_calls(f.node):
+                if not isinstance(c.func, ast.Attribute):
+                    continue
+                root = c.func.value
+                while isinstance(root, (ast.Attribute, ast.Subscript)):
+                    root = root.value
+                if isinstance(root, ast.Name) and root.id == "self" and not isinstance(c.func.value, ast.Subscript):
+                    continue
+                if isinstance(root, ast.Call):
+                    continue  # super()
+                for k in c.keywords:
+                    if k.arg in opt and isinstance(k.value, ast.Name) and k.value.id == k.arg:
+                        sites.append((c, k.arg))
+            if not sites:
+                continue
+
+            def ev(node):
+                out = []
+                if isinstance(node, ast.Name) and isinstance(node.ctx, ast.Store) and node.id in opt:
+                    out.append("set:" + node.id)
+                return out
+            fl = Flow(f.node, ev).run()
+            for c, p in sites:
+                n += 1
+                st = fl.state_before(c) or {}
+                r.require(st.get("set:" + p, (0, 0))[1] == 0, f"{m.relpath.rsplit('/', 1)[-1]}:{f.qualname}:{norm(c.func)[:50]}", f, node=c,
+                          msg=f"`{p}` may already have been replaced by this object's own default when it is forwarded to `{norm(c.func.value)[:40]}`: "
+                              f"the other object is then evaluated at this object's temperature instead of its own")
+    if n < 3:
+        raise AnalysisError(f"only {n} foreign forwarding sites found")
+
+
 def run(idx, chk):
     chk.explanation = (
         "C03: every two-dimensional shape's area formula is typed in the free abelian group generated by the linear expansion factor L "
@@ -309,3 +399,7 @@ def run(idx, chk):
     chk.run_rule("R03.5", "setTemperature: previous T read, new T stored, density factor (prev,new), densities scaled, caches cleared - once each on every path", lambda r: r5_settemperature(idx, r), floor=5, necessary="mass per unit height is conserved at every temperature change")
     chk.run_rule("R03.6", "1+f(T,T0) is the ratio (100+p(T))/(100+p(T0)); every solid's density reduction is (1+f)^-2 of that same f", lambda r: r6_path_independence(idx, r), floor=4, necessary="the end state depends only on the final temperature; mass conserved")
     chk.run_rule("R03.7", "every linearExpansionPercent keeps (self, Tk=None, Tc=None) and normalises its temperature through getTk/getTc", lambda r: r7_materials(idx, r), floor=35, necessary="component code calls with Tc=; a K/C mix-up breaks every factor")
+    chk.run_rule("R03.8", "optional temperature arguments (Tc/Tk/T0 = None) are only compared with None, never evaluated for truth", lambda r: r8_none_tests(idx, r), floor=100,
+                 necessary="'at temperature T' holds for every T in range, 0 degrees C included")
+    chk.run_rule("R03.9", "an optional Tc forwarded to another object is still the caller's argument (no local default resolved before)", lambda r: r9_foreign_forwarding(idx, r), floor=3,
+                 necessary="a linked dimension follows the linked component at ITS temperature")
